@@ -366,6 +366,13 @@ class Analyzer:
                 base = st.buf[r[0][5:]]
                 via = (base[0] - r[2] if base[0] > NEG else NEG, POS)
                 iv = via if iv is None else (max(iv[0], via[0]), iv[1])
+            # a counter that runs down in step with the pointer: (('rge', p, c), r) says that r + c bytes are readable at p
+            for a_ in st.acc:
+                if isinstance(a_[0], tuple) and a_[0][0] == 'rge' and a_[0][1] == key:
+                    rlo = st.int.get(a_[1], TOP)[0]
+                    if rlo > NEG:
+                        via = (rlo + a_[0][2], POS)
+                        iv = via if iv is None else (max(iv[0], via[0]), iv[1])
             if iv is None:
                 return None
         else:
@@ -484,7 +491,8 @@ class Analyzer:
         st.acc = frozenset(a for a in st.acc if a[1] != did and not (isinstance(a[0], tuple) and a[0][0] == 'lt' and a[0][1] == did))
 
     def kill_term(self, st, kind, key):
-        st.acc = frozenset(a for a in st.acc if not ((a[0][0] == kind or (kind == 'cur' and a[0][0] == 'cnt')) and a[0][1] == key))
+        st.acc = frozenset(a for a in st.acc if not ((a[0][0] == kind or (kind == 'cur' and a[0][0] == 'cnt') or
+                                                      (kind == 'ptr' and a[0][0] == 'rge')) and a[0][1] == key))
 
     def assign_int(self, st, ref, iv, rhs=None):
         old_iv = st.int.get(ref['d'], TOP)
@@ -525,6 +533,10 @@ class Analyzer:
                     av = st.buf.get(bo, TOP)
                     if av[0] >= c:        # no wrap: offset + c <= length on this path
                         st.acc = st.acc | {(('cnt', bo, 0), ref['d'])}
+                        # ... and exactly what is readable at every pointer that stands at the cursor right now
+                        for pk, rl in st.rel.items():
+                            if rl[0] == '@cur:' + bo and rl[1] == rl[2] == 0 and pk in self.tracked_ptrs:
+                                st.acc = st.acc | {(('rge', pk, c), ref['d'])}
 
     def zero_count(self, st, did):
         # zero bytes are readable at every cursor that is not behind its end
@@ -586,7 +598,19 @@ class Analyzer:
                     t = self.u.ty(tgt.get('ty0', tgt['ty']))
                     if t['c'] == 'int':
                         pass   # killed at the call that receives the address
+        self.settle_counters(st)
         return st
+
+    def settle_counters(self, st):
+        """what the lockstep counters say about their pointers, written into the pointers' own bounds (facts that differ between
+        two branches are dropped where the branches meet; the bounds are joined)"""
+        for a_ in st.acc:
+            if isinstance(a_[0], tuple) and a_[0][0] == 'rge':
+                rlo = st.int.get(a_[1], TOP)[0]
+                if rlo > NEG:
+                    old = st.ptr.get(a_[0][1])
+                    lo = rlo + a_[0][2]
+                    st.ptr[a_[0][1]] = (lo, POS) if old is None else (max(old[0], lo), old[1])
 
     # ---- bytes behind a pointer: 'beh:<p>' in st.ptr holds (k, POS) when at least k bytes of the input lie in front of p ----
     def beh_get(self, st, name):
@@ -883,7 +907,10 @@ class Analyzer:
         if t.get('k') == 'ref':
             ty = self.u.ty(t.get('ty0', t['ty']))
             if ty['c'] == 'ptr':
+                shifted = [((a_[0][0], a_[0][1], a_[0][2] - ev.delta), a_[1]) for a_ in st.acc
+                           if isinstance(a_[0], tuple) and a_[0][0] == 'rge' and a_[0][1] == t['n']]
                 self.kill_term(st, 'ptr', t['n'])
+                st.acc = st.acc | frozenset(shifted)
                 if t['n'] in st.rel:
                     r = st.rel[t['n']]
                     st.rel[t['n']] = (r[0], r[1] + ev.delta if r[1] > NEG else NEG, r[2] + ev.delta if r[2] < POS else POS)
@@ -900,7 +927,10 @@ class Analyzer:
                 # offset + v < length and then v++: offset + v <= length, v bytes are readable at the cursor
                 counted = [a[0][1] for a in st.acc if isinstance(a[0], tuple) and a[0][0] == 'cur' and a[0][2] == 0 and a[1] == t['d']] \
                     if ev.delta == 1 else []
+                shifted = [((a_[0][0], a_[0][1], a_[0][2] - ev.delta), a_[1]) for a_ in st.acc
+                           if isinstance(a_[0], tuple) and a_[0][0] == 'rge' and a_[1] == t['d']]
                 self.kill_var(st, t['d'])
+                st.acc = st.acc | frozenset(shifted)
                 for B in counted:
                     st.acc = st.acc | {(('cnt', B, 0), t['d'])}
                 if old is not None:
@@ -1030,7 +1060,10 @@ class Analyzer:
     # ---- edge refinement ------------------------------------------------------------------------------
     def refine(self, node, label, st):
         if label[0] in ('T', 'F'):
-            return self.refine_cond(label[1], label[0] == 'T', st)
+            out = self.refine_cond(label[1], label[0] == 'T', st)
+            if out is not None:
+                self.settle_counters(out)
+            return out
         return st
 
     def _meet(self, iv, lo=None, hi=None):
@@ -1275,6 +1308,12 @@ class Analyzer:
             if cc >= 1 and st.len.get(bl, 0) >= cc:
                 return 'in', '%s.length - %d with length >= %d' % (bl, cc, cc)
             return None, '%s.length - %d without length >= %d' % (bl, cc, cc)
+        if r.get('k') == 'bin' and r['op'] == '-' and self.u.ty(strip_casts(r['l']).get('ty0', strip_casts(r['l']).get('ty')))['c'] == 'ptr':
+            # a position formed as the distance between two pointers: this analysis follows positions that are kept as indices
+            self.__dict__.setdefault('unmodelled', []).append(
+                '%s: the failure position is formed as the difference of pointers %s; BND5 follows positions kept as indices, where a '
+                'pointer was advanced to is not related to the buffer here' % (self.fn.where(r), expr_str(r)[:50]))
+            return 'in', 'not judged (a difference of pointers)'
         if r.get('k') == 'cond':
             out = []
             for truth, arm in ((True, r['t']), (False, r['e'])):
